@@ -118,6 +118,60 @@ pub fn write_scenarios(tier: Tier) -> Vec<WriteScn> {
             }
         }
     }
+    // one multi-byte character starting at every offset 0..=300 of an ASCII text (a preview, a column limit or a
+    // buffer of any size up to 300 that cuts a text in the middle of a character)
+    for ch in ["é", "€", "💡"] {
+        let cb = ch.as_bytes();
+        for start in 0..=300usize {
+            let mut t: Vec<u8> = (0..start).map(|i| b'a' + (i % 26) as u8).collect();
+            t.extend_from_slice(cb);
+            while t.len() < 310 {
+                t.push(b'A' + (t.len() % 26) as u8);
+            }
+            let buf = if start % 2 == 0 { 0x480000 } else { 0xffd000 };
+            v.push(WriteScn { text: t, buf, arg: 0xffe900, pc: dom::CODE_DRAM, ccr: 0x2b });
+        }
+    }
+    // newlines with long tails, and long lines before a newline (line-buffered console writers)
+    for head in [0usize, 1, 27, 1023, 1024, 1025] {
+        for tail in [0usize, 1, 1022, 1023, 1024, 1025, 1500, 3000] {
+            if head + 1 + tail > 4096 {
+                continue;
+            }
+            let mut t: Vec<u8> = (0..head).map(|i| b'h' + (i % 7) as u8).collect();
+            t.push(b'\n');
+            t.extend((0..tail).map(|i| b't' + (i % 5) as u8));
+            v.push(WriteScn { text: t.clone(), buf: 0x480000, arg: 0xffe900, pc: dom::CODE_RAM, ccr: 0x00 });
+            // and two newlines
+            let mut t2 = t.clone();
+            let mid = t2.len() / 2;
+            t2[mid] = b'\n';
+            v.push(WriteScn { text: t2, buf: 0xffd000, arg: 0x4a0000, pc: dom::CODE_DRAM, ccr: 0x80 });
+        }
+    }
+    // terminal control: every string of <= 4 symbols over {ESC, [, 0, ;, m, 1} (colour and cursor sequences), and
+    // the other bytes a terminal or a log view gives a meaning to
+    {
+        let syms: [&str; 6] = ["\x1b", "[", "0", ";", "m", "1"];
+        let mut frontier: Vec<String> = vec![String::new()];
+        for _ in 0..4 {
+            let mut nf = Vec::new();
+            for s0 in &frontier {
+                for y in syms.iter() {
+                    nf.push(format!("{}{}", s0, y));
+                }
+            }
+            for s1 in nf.iter() {
+                if s1.contains('\x1b') {
+                    v.push(WriteScn { text: format!("<{}>", s1).into_bytes(), buf: 0xffd000, arg: 0xffe900, pc: dom::CODE_RAM, ccr: 0x01 });
+                }
+            }
+            frontier = nf;
+        }
+        for t in ["\x1b[1;31mred\x1b[0m", "\x1b[2J\x1b[H", "\x1b]0;title\x07", "a\rb", "a\tb", "a\x08b", "a\x7fb", "\x07", "%s %d %n", "{} {0}", "\\n \\t \\x1b", "<b>&amp;</b>", "\u{feff}bom", "\u{200b}zw", "\u{202e}rtl", "e\u{301}"] {
+            v.push(WriteScn { text: t.as_bytes().to_vec(), buf: 0x480000, arg: 0xffe900, pc: dom::CODE_DRAM, ccr: 0x00 });
+        }
+    }
     // buffers ending exactly at the last byte of on-chip RAM and of DRAM
     for (end, n) in [(0xffff1fu32, 17usize), (0x5fffff, 33), (0xffff1f, 1), (0x5fffff, 4096)] {
         let text = pat(n);
